@@ -514,55 +514,48 @@ def _exc_key(e, delta, snap_new, taint, pats=()):
     unspecified = any(x and (_tainted(taint, x) or any(t.startswith(x + "/") for t in taint)) for x in involved)
     if subject is None:
         return "raised:%s@%s" % (exc, opname), unspecified
-    if opname == "upload_symlink" and exc == "InvalidURL" and any(ord(c) > 127 for o in ops[-1:] for x in o[1:] for c in x):
-        # every other remote operation goes through urlutils.escape(); upload_symlink hands raw paths to the transport
-        return "upload_symlink:path-not-url-escaped", False
-    if opname == "upload_symlink" and "/" in subject and exc in ("InvalidURL", "NoSuchFile", "PathNotChild"):
-        # the link-relative target is handed to Transport.symlink() as a transport-relative source
-        # (upload_symlink_robustly normalises it, upload_symlink does not)
+    if opname == "upload_symlink" and exc in ("InvalidURL", "PathNotChild"):
+        # the transport rejected what it was handed: raw non-ASCII path, or a link-relative target taken as transport-relative
+        if any(ord(c) > 127 for o in ops[-1:] for x in o[1:] for c in x):
+            return "upload_symlink:path-not-url-escaped", False
         return "symlink-in-subdirectory:target-not-normalised", False
     if opname == "upload_symlink" and exc == "FileExists":
         return "upload_symlink:remote-path-not-cleared-first", unspecified
     if delta is None:
-        if opname == "upload_symlink" and "/" in subject and exc in ("InvalidURL", "NoSuchFile", "PathNotChild"):
-            return "symlink-in-subdirectory:target-not-normalised", False
         return "raised:%s@%s:entry" % (exc, opname), unspecified
-    fid = delta.old_at.get(subject) if side == "old" else delta.new_at.get(subject)
-    if opname == "rename_remote" and len(involved) > 1 and pats and _ignored(pats, involved[0]) and subject not in SPECIAL:
-        return "renamed-from-upload-ignored-path", False
-    fam = _family(delta, fid, subject, None)
+    fam = _explain(delta, subject, side, pats, None, opname)
     if fam:
         return fam, (unspecified and fam != "special-file-skipped-by-full-upload")
-    base = delta.cls.get(fid, "unchanged")
-    shapes = _delta_shapes(delta)
-    if shapes:
-        return "other-failure-in-delta-with:%s:raised:%s@%s" % (shapes[0], exc, opname), unspecified
-    return "raised:%s@%s:%s" % (exc, opname, base), unspecified
+    fid = delta.old_at.get(subject) if side == "old" else delta.new_at.get(subject)
+    return "raised:%s@%s:%s" % (exc, opname, delta.cls.get(fid, "unchanged")), unspecified
 
 
-FAMILY_ORDER = ["special-file-skipped-by-full-upload", "renamed+kind_changed-treated-as-plain-rename",
-                "renamed+retargeted-symlink-uploaded-as-file", "rename-into-directory-added-in-same-upload",
-                "path-under-directory-renamed-in-same-upload", "path-reused-by-directory-or-symlink-within-one-upload",
-                "renamed+exec:exec-bit-not-updated"]
+OLD_SIDE_OPS = ("delete_remote_file", "delete_remote_dir", "delete_remote_dir_maybe", "rename_remote", "finish_deletions")
 
 
-def _family(delta, fid, path, sym):
-    """Known mechanism (closed key space) that explains a failure at the entry fid / path, or None."""
-    if path in SPECIAL:
-        return "special-file-skipped-by-full-upload"
-    if fid is None:
+def _mechanism(delta, fid, patterns, sym, op, own):
+    """Known mechanism (closed key space) by which the upload mistreats the entry fid; own=False: fid is an ancestor directory of the
+    failing path (only mechanisms that damage what lies below a directory apply)."""
+    cls = delta.cls.get(fid)
+    if cls is None:
         return None
-    cls = delta.cls.get(fid, "unchanged")
     flags = delta.flags.get(fid, set())
+    oldp = next((q for q, f in delta.old_at.items() if f == fid), None)
+    newp = next((q for q, f in delta.new_at.items() if f == fid), None)
     if cls.startswith("renamed+kind_changed"):
         return "renamed+kind_changed-treated-as-plain-rename"
-    if cls.startswith("renamed+target"):
+    if cls.startswith("renamed+target") and own:
         return "renamed+retargeted-symlink-uploaded-as-file"
-    if sym == "exec-bit" and cls.startswith("renamed") and "+exec" in cls:
+    if cls.startswith("renamed") and oldp and newp and patterns and _ignored(patterns, oldp) and not _ignored(patterns, newp):
+        # the fix uploads the entry itself as an addition; what lives below a directory is still left out
+        return "renamed-from-upload-ignored-path" if own else "directory-renamed-from-upload-ignored-path:children-not-uploaded"
+    if own and (oldp in SPECIAL or newp in SPECIAL) and op in OLD_SIDE_OPS and oldp in SPECIAL:
+        return "special-file-skipped-by-full-upload"
+    if own and sym == "exec-bit" and cls.startswith("renamed") and "+exec" in cls:
         return "renamed+exec:exec-bit-not-updated"
-    if "into-added-dir" in flags:
+    if own and "into-added-dir" in flags:
         return "rename-into-directory-added-in-same-upload"
-    if "under-renamed-dir" in flags:
+    if own and "under-renamed-dir" in flags:
         return "path-under-directory-renamed-in-same-upload"
     if flags & {"path-reused", "old-path-reused"} and delta.reuse_kinds(fid) - {"file"}:
         # plain file<->file swaps are what the two-stage rename exists for and must work: they keep their detailed key
@@ -570,47 +563,38 @@ def _family(delta, fid, path, sym):
     return None
 
 
-def _delta_shapes(delta):
-    """Known-bad shapes present anywhere in the delta, most specific first (used only when the failing path itself explains nothing:
-    an aborted or mis-ordered upload damages unrelated paths too)."""
-    found = set()
-    opath = {v[3]: p for p, v in delta.old.items()}
-    npath = {v[3]: p for p, v in delta.new.items()}
-    for fid, cls in delta.cls.items():
-        if cls.startswith("carried"):
-            continue
-        for pth in (opath.get(fid), npath.get(fid)):
-            if pth in SPECIAL:
-                found.add("special-file-skipped-by-full-upload")
-        n = npath.get(fid)
-        if n is not None and delta.new[n][0] == "symlink" and "/" in n and (cls.startswith("added") or "target" in cls or "kind_changed" in cls):
-            found.add("symlink-in-subdirectory:target-not-normalised")
-        if n is not None and delta.new[n][0] == "symlink" and ("modified+target" in cls or "path-reused" in delta.flags.get(fid, ())):
-            found.add("upload_symlink:remote-path-not-cleared-first")
-        f = _family(delta, fid, None, "exec-bit")
-        if f:
-            found.add(f)
-    order = ["symlink-in-subdirectory:target-not-normalised", "upload_symlink:remote-path-not-cleared-first"] + FAMILY_ORDER
-    return [x for x in order if x in found]
+def _explain(delta, path, side, patterns, sym, op):
+    """Mechanism for a failure at path: what the delta does to the entry there, else to its nearest changed ancestor directory
+    (old or new tree, as the remote path may be a leftover of either)."""
+    first, second = (delta.old_at, delta.new_at) if side == "old" else (delta.new_at, delta.old_at)
+    fid = first.get(path, second.get(path))
+    q = path.rpartition("/")[0]
+    while q and patterns:  # below a directory that was upload-ignored under its old name: nothing of it is on the remote side
+        a = delta.new_at.get(q)
+        oldq = next((x for x, f in delta.old_at.items() if f == a), None) if a is not None else None
+        if oldq and oldq != q and delta.cls.get(a, "").startswith("renamed") and _ignored(patterns, oldq) and not _ignored(patterns, q):
+            return "directory-renamed-from-upload-ignored-path:children-not-uploaded"
+        q = q.rpartition("/")[0]
+    if fid is not None:
+        m = _mechanism(delta, fid, patterns, sym, op, True)
+        if m:
+            return m
+    q = path.rpartition("/")[0]
+    while q:
+        for at in (first, second):
+            if q in at:
+                m = _mechanism(delta, at[q], patterns, sym, op, False)
+                if m:
+                    return m
+        q = q.rpartition("/")[0]
+    return None
 
 
 def _mismatch_key(delta, p, cls, sym, patterns=()):
-    """Family key for a remote/tree difference at path p (closed key space for the known mechanisms), else the detailed key."""
+    """Mechanism key for a remote/tree difference at path p (closed key space for the known mechanisms), else the detailed key."""
     if delta is None:
         return "%s:%s" % (cls, sym)
-    fid = delta.new_at.get(p, delta.old_at.get(p))
-    if cls.startswith("renamed") and p in delta.new_at:
-        oldp = [q for q, f in delta.old_at.items() if f == fid]
-        if oldp and patterns and _ignored(patterns, oldp[0]):
-            # the entry was upload-ignored (never or no longer synchronised) under its old name; the uploader renames whatever is there
-            return "renamed-from-upload-ignored-path"
-    fam = _family(delta, fid, p, sym)
-    if fam:
-        return fam
-    shapes = _delta_shapes(delta)
-    if shapes:
-        return "other-failure-in-delta-with:%s:%s" % (shapes[0], sym)
-    return "%s:%s" % (cls, sym)
+    return _explain(delta, p, "new" if p in delta.new_at else "old", patterns, sym, None) or "%s:%s" % (cls, sym)
 
 
 def case(ctx):
